@@ -37,6 +37,8 @@ using namespace IMATH_NAMESPACE;
     WRAP void w_m22_setscale##S (Matrix22<T>* m, const Vec2<T>* s) { m->setScale (*s); }                            \
     WRAP void w_m22_scale##S (Matrix22<T>* m, const Vec2<T>* s) { m->scale (*s); }                                  \
     WRAP void w_alignz##S (Matrix44<T>* m, const Vec3<T>* target, const Vec3<T>* up) { alignZAxisWithTargetDir (*m, *target, *up); } \
+    WRAP void w_alignz_parallel##S (Matrix44<T>* m, const Vec3<T>* target, T lambda) { alignZAxisWithTargetDir (*m, *target, *target * lambda); } \
+    WRAP void w_rotupdir_parallel##S (Matrix44<T>* m, const Vec3<T>* from, const Vec3<T>* to, T lambda) { *m = rotationMatrixWithUpDir (*from, *to, *to * lambda); } \
     WRAP void w_rotupdir##S (Matrix44<T>* m, const Vec3<T>* from, const Vec3<T>* to, const Vec3<T>* up) { *m = rotationMatrixWithUpDir (*from, *to, *up); } \
     WRAP void w_localframe##S (Matrix44<T>* m, const Vec3<T>* p, const Vec3<T>* xdir, const Vec3<T>* n) { *m = computeLocalFrame (*p, *xdir, *n); }
 
